@@ -1102,6 +1102,9 @@ def enumerated_arrays():
     out.append(("3d:2x3x4:int", iv))
     out.append(("1d:9:int", np.array([0, 2, 2, 0, 1, 3, 3, 3, 0], dtype=np.int64)))
     out.append(("2d:3x3:int", np.array([[0, 2, 0], [1, 1, 0], [0, 0, 3]], dtype=np.int64)))
+    # ndim filled voxels with distinct values: a wrong index map can report the right *set* of indices
+    # while the values are attached to the wrong ones
+    out.append(("2d:1x3:int", np.array([[0, 1, 2]], dtype=np.int64)))
     return out
 
 
